@@ -170,12 +170,40 @@ class NpProxy:
         return out
 
     def _solve(self, a, b):
+        if self._cls is TSym:
+            return self._solve_trace(a, b)
         a = obj(a, self._mk)
         b = obj(b, self._mk)
         ai = self._inv(a)
         if b.ndim == 1:
             return ai.dot(b)
         return ai.dot(b)
+
+
+def _solve_trace(self, a, b):
+    """Trace domain contract of np.linalg.solve: solve(I, b) returns b exactly when `a` is literally the
+    identity (assumed LAPACK clause, bounded-checked natively); otherwise uninterpreted operations."""
+    from .sym import Node, t_const, Sym, T_ZERO, T_ONE
+    a = _np.asarray(a, dtype=object)
+    b = _np.asarray(b, dtype=object)
+    nodes = [[(x.e if isinstance(x, Sym) else t_const(x)) for x in row] for row in a]
+    n = len(nodes)
+    ident = all(nodes[i][j] is (T_ONE if i == j else T_ZERO) for i in range(n) for j in range(n))
+    self.side_conditions.append(("solve_identity" if ident else "solve_general", None))
+    if ident:
+        return b.copy()
+    flat_a = [x for row in nodes for x in row]
+    out = _np.empty(b.shape, dtype=object)
+    bb = b.reshape(n, -1)
+    oo = out.reshape(n, -1)
+    for j in range(bb.shape[1]):
+        col = [(x.e if isinstance(x, Sym) else t_const(x)) for x in bb[:, j]]
+        for i in range(n):
+            oo[i, j] = TSym(Node("solve_%d" % i, *(flat_a + col)))
+    return out
+
+
+NpProxy._solve_trace = _solve_trace
 
 
 @contextlib.contextmanager
